@@ -809,7 +809,7 @@ theorem serializedLen_eq (m : Message) : m.serializedLen = m.toVec.length := by
 theorem stamp_unstamped_error (reqId : Nat) (reqQuery : Bytes) (code : Nat) (msg : Bytes) :
     stampResponseQuery (createErrorResponseUnstamped reqId code msg) reqQuery =
       createErrorResponseLike reqId reqQuery code msg := by
-  unfold stampResponseQuery createErrorResponseUnstamped createErrorResponseLike createErrorMessage
+  unfold stampResponseQuery createErrorResponseUnstamped createErrorResponseLike wireErrorMessage
     Builder.build Header.patchLengths
   cases reqQuery with
   | nil => simp
@@ -827,7 +827,7 @@ theorem createErrorResponseLike_wf (reqId : Nat) (reqQuery : Bytes) (code : Nat)
     (hid : reqId < 2^64) (hc : code < 2^32) (hlen : 48 + reqQuery.length + msg.length < 2^64) :
     (createErrorResponseLike reqId reqQuery code msg).WF := by
   refine ⟨⟨?_, ?_, ?_, ?_, ?_, ?_, ?_, ?_, ?_, ?_, ?_⟩, rfl, rfl, rfl, rfl⟩ <;>
-    simp [createErrorResponseLike, createErrorMessage, Builder.build, REPE_SPEC, REPE_VERSION, UTF8_FORMAT] <;>
+    simp [createErrorResponseLike, wireErrorMessage, Builder.build, REPE_SPEC, REPE_VERSION, UTF8_FORMAT] <;>
     omega
 
 /-- A route whose writes are header, query, body (guarded or not) emits `to_vec`. -/
